@@ -476,7 +476,15 @@ def _run(ctx, hbin, scratch):
         if not idx:
             continue
         text = ''.join(ops[i] + '\n' for i in idx)
-        rc, out, se = ctx.run_lines([hbin[ibs]], text)
+        rc, out, se = ctx.run_lines([hbin[ibs]], text, env={'VERIF_OP_TIMEOUT': os.environ.get('VERIF_OP_TIMEOUT', '60')})
+        if rc == -14 and len(out) < len(idx):
+            # the per-op watchdog of the harness fired: this op never came back
+            hop = ops[idx[len(out)]]
+            ctx.violation('decompressor-hangs:' + ' '.join(hop.split()[:3]),
+                          'the real decompressor does not come back on `%s` (ibs=%d; harness op watchdog, %s s): a read()/close() call loops for ever'
+                          % (hop[:300], ibs, os.environ.get('VERIF_OP_TIMEOUT', '60')),
+                          {'kind': 'counterexample', 'op': hop, 'replay': 'echo "<op>" | <c09 harness>'})
+            return
         if rc != 0 or len(out) != len(idx):
             ctx.violation('harness-crash', 'harness (ibs=%d) exited %d after %d of %d lines: %s' % (ibs, rc, len(out), len(idx), se[-500:]),
                           {'kind': 'harness-crash', 'stderr': se[-2000:], 'next_op': ops[idx[min(len(out), len(idx) - 1)]]}, found_input=False)
